@@ -7,7 +7,7 @@ VERIF = Path(__file__).resolve().parent.parent
 TEXT = {
  "C17": dict(
     technique="TLA+ definition (Bounds.tla) model-checked by TLC; TLC-generated exhaustive case table replayed on apply_bounds",
-    text="TLC enumerates every lattice case (3 methods x boxes x inputs incl. faces, one-ulp offsets, exact multiples of the range) of Bounds.tla, checks the property's laws on the definition, and the complete table is replayed on the real apply_bounds under 9 float concretisations incl. (-0.1,0.2), 1e-9 and 1e9 ranges. Exhaustive for the bounded lattice; floats enter through the stated ulp tolerances.",
+    text="TLC enumerates every lattice case (3 methods x boxes x inputs incl. faces, one-ulp offsets, exact multiples of the range) of Bounds.tla, checks the property's laws on the definition, and the complete table is replayed on the real apply_bounds under 9 float concretisations incl. (-0.1,0.2), 1e-9 and 1e9 ranges; every case additionally as a single vector and, where integer-valued, as int64 / float32 arrays. Exhaustive for the bounded lattice; floats enter through the stated ulp tolerances.",
     note="Trusted: TLC, the harness' concretisation/ulp comparison, numpy. Not covered: inputs that are not an affine image of a lattice point within Span ranges of the box.",
     design_ref="4/C17"),
 }
@@ -22,12 +22,12 @@ def _t(text, tech, ref, note=TRACE_NOTE):
 TEXT.update({
  "C13": dict(
     technique="PairTrace.tla (self-composition of twin traces) checked by TLC + direction-parameterised TLA+ definitions (Engines/Sprout/NBC/R5S.tla) whose tables are replayed in both directions",
-    text="Whole-run form: seeded twin runs on (f, maximize) and (-f, minimize) over index-stable engine mixes are recorded and PairTrace.tla requires identical event streams (genome ids, goodness ranks, tree projections, digests) - this covers the descent direction of CMA-ES and the local search. Decision form: every selection definition is written on goodness ranks; TLC-generated tables for individual ordering, top-k, (mu+k) truncation, DE/SHADE replacement, tournament, NBC, DemeLimit/LevelLimit and R5S are replayed on the real components in both formulations and the two results must agree with the table and with each other.",
+    text="Whole-run form: seeded twin runs on (f, maximize) and (-f, minimize) over index-stable engine mixes are recorded and PairTrace.tla requires identical event streams (genome ids, goodness ranks, tree projections, digests) - this covers the descent direction of CMA-ES and the local search; half of the mirrors are built from level configurations that were first constructed for the opposite direction and then pointed at the real problem. Decision form: every selection definition is written on goodness ranks; TLC-generated tables for individual ordering, top-k, (mu+k) truncation, DE/SHADE replacement, tournament, NBC, DemeLimit/LevelLimit and R5S are replayed on the real components in both formulations and the two results must agree with the table and with each other.",
     note="Trusted: TLC, recorder, rank/id projection. SEA-family whole runs, MWEA utility and FitnessSteadiness are excluded as the property excludes them.",
     design_ref="4/C13"),
  "C14": dict(
     technique="PairTrace.tla (self-composition of repeat traces) checked by TLC over a seeded corpus",
-    text="For configurations of the full engine matrix the same seeded run is recorded in-process, again after scrambling the global random/numpy generators, and in a fresh subprocess with a different PYTHONHASHSEED; PairTrace.tla requires the event streams (ids, start metaepochs, genome ids, ranks, counters, flags, digests) to be equal and reports the first differing event; each run is also validated by HMSTrace.",
+    text="For configurations of the full engine matrix the same seeded run is recorded in-process, again after scrambling the global random/numpy generators, and in a fresh subprocess with a different PYTHONHASHSEED; PairTrace.tla requires the event streams (ids, start metaepochs, genome ids, ranks, counters, flags, digests) to be equal and reports the first differing event; the repeat corpus includes hash-sensitive configurations (several demes per round) and a partially defined objective (NaN comparisons consult Python's global generator); each run is also validated by HMSTrace.",
     note="Trusted: TLC, recorder. The specification's contribution is equality of behaviours; the quantifier is carried by the corpus (see evidence).",
     design_ref="4/C14"),
  "C15": dict(
@@ -44,7 +44,7 @@ TEXT.update({
            TRACE_TECH + "clauses C01_*", "4/C01"),
  "C02": _t("TLC evaluates C02_TrueFitness (stored fitness = pure re-evaluation of the stored genome, or the cutoff sentinel after a refusal) on every recorded generation, best individual and seed, and C02_HistoryAppendOnly (digest of the first n generations at a later snapshot = digest recorded when there were n) between all consecutive boundary snapshots.",
            TRACE_TECH + "clauses C02_*", "4/C02"),
- "C03": _t("HMS.tla advances its per-deme evaluation counters with the recorder's ground-truth call batches; at every stop-condition consult TLC compares them with the counters the tree reports (per deme, per level against one recorder stream per level, tree total = sum), guarded by 'no refusal yet'. Design model: total = sum over levels in every state.",
+ "C03": _t("HMS.tla advances its per-deme evaluation counters with the recorder's ground-truth call batches; at every stop-condition consult TLC compares them with the counters the tree reports (per deme, per level against one recorder stream per level, tree total = sum), guarded by 'no refusal yet'. Design model: total = sum over levels in every state; evaluation budget (forwarded / refused requests) with C03_BudgetHard, C03_TotalEqualsCalls, C03_RequestsSplit as invariants over the configurations minimize(maxfun=N) builds, N in 1..9, and reachability witnesses (a budget runs out, a budget cuts a batch). Corpus includes objectives that themselves return the worst infinity (real evaluations that look like refusals) and one objective per level (multi-fidelity, with and without memoising problems).",
            "TLC design model (HMSModel.tla) + " + TRACE_TECH + "clauses C03_*", "4/C03"),
  "C04": _t("At every boundary snapshot TLC checks that the reported tree / deme best has the minimum goodness rank of all generations logged so far and is one of them, that it never gets worse, and (no local level, no refusal) equals the best rank the recorder ever returned.",
            TRACE_TECH + "clauses C04_*", "4/C04"),
@@ -58,21 +58,21 @@ TEXT.update({
            "TLC design model + scenario scripts + " + TRACE_TECH + "clauses C08_*", "4/C08"),
  "C09": _t("C09_CentroidCurrent at every boundary for every deme (reported centroid vs mean of the current population, harness atom); C09_FarFromConsidered for every seed returned by FarEnough / NBC_FarEnough mechanisms against recomputed centroids of the considered demes.",
            TRACE_TECH + "clauses C09_*", "4/C09"),
- "C10": _t("Sprout.tla defines each filter as a relation (acceptable outputs where the property leaves a choice); TLC explores every composition order of DemeLimit / FarEnough / LevelLimit / SkipSameSprout as a state machine (filters only remove, limits hold whatever comes later) and writes per-filter tables (all candidate sets with ties, both directions, occupancy incl. more active demes than the limit); every row is replayed on the real filter objects. Generators: provenance clauses (candidates from current populations of active non-leaf demes, BestPerDeme proposes the current best, used subset of generated) on every round of every recorded run.",
+ "C10": _t("Sprout.tla defines each filter as a relation (acceptable outputs where the property leaves a choice); TLC explores every composition order of DemeLimit / FarEnough / LevelLimit / SkipSameSprout as a state machine (filters only remove, limits hold whatever comes later) and writes per-filter tables (all candidate sets with ties, both directions, occupancy incl. more active demes than the limit); every row is replayed on the real filter objects (SkipSameSprout also with parents on two different levels, in both dictionary orders). Generators: provenance clauses (candidates from current populations of active non-leaf demes, BestPerDeme proposes the current best, used subset of generated) on every round of every recorded run.",
            "TLA+ relations + state machine (Sprout.tla) checked by TLC; exhaustive tables replayed on the real filters; " + TRACE_TECH + "clauses C10_*", "4/C10"),
- "C11": _t("For all consecutive generation pairs of every population-engine deme TLC checks: each individual (genome id, rank) was in the preceding generation or its genome was evaluated in the iteration that produced the generation (iteration call sets delimited by the deme's own consults).",
+ "C11": _t("For all consecutive generation pairs of every population-engine deme TLC checks: each individual (genome id, rank) was in the preceding generation or its genome was evaluated in the iteration that produced the generation (iteration call sets delimited by the deme's own consults); generations committed without an observed iteration must consist of individuals evaluated by that deme since the last boundary. Corpus includes caller-driven runs (run_step loops, run() called again after the limit was raised).",
            TRACE_TECH + "clause C11_BredFromPredecessor", "4/C11"),
  "C12": _t("For all consecutive generation pairs: best rank not worse (SEA family with elites, DE, SHADE), sorted rank vector componentwise not worse (DE, SHADE), generation size = configured population size (CMA: constant lambda).",
            TRACE_TECH + "clauses C12_*", "4/C12"),
- "C18": _t("Design model with 3 levels: hib flag <=> no sprout in the last round the deme took part in, newborn awake, asleep means frozen, off means never; progress clause per metaepoch. Traces: flags predicted by the model from the observed rounds and compared at every consult. The two idle-metaepoch shapes of known_findings.json are reported as KNOWN-FINDING; any other idle metaepoch is a violation.",
+ "C18": _t("Design model with 3 levels: hib flag <=> no sprout in the last round the deme took part in, newborn awake, asleep means frozen, off means never; progress clause per metaepoch. Traces: flags predicted by the model from the observed rounds and compared at every consult. Objective calls attributed to a sleeping (or stopped) deme between any two events are violations. The two idle-metaepoch shapes of known_findings.json are reported as KNOWN-FINDING - the stall only when the generator had proposed candidates for every sleeping deme in the preceding round; any other idle metaepoch is a violation.",
            "TLC design model (incl. reachability witness of the stall) + scenario scripts + " + TRACE_TECH + "clauses C18_*", "4/C18"),
 })
 
 TEXT.update({
  "C19": _t("At TLC-/generator-chosen metaepoch boundaries k the recorder dumps the live tree, checks that dumping is a stutter (digest of the whole tree and of the global random state unchanged), loads the snapshot and compares projection, summary() and stop-condition verdict (clauses C19_DumpIsStutter, C19_LoadEqualsSnapshot, C19_SummarySame, C19_VerdictSame evaluated by TLC), then runs the loaded tree to its end under its own recorder copy: the continued trace is validated by HMSTrace from the restored state (structure, level limit, accounting, best never worse = C19_ContinuationValid). Engines incl. CMA, SHADE, LHS/Sobol, LOCAL; objectives as callables and lambdas.",
            TRACE_TECH + "clauses C19_* and HMS.tla invariants on the continuation of the restored tree", "4/C19"),
- "C20": _t("At every loop-head boundary of ~40% of the corpus the recorder calls every reporting/query accessor twice, parses summary()/tree() and logs parsed fields, purity (tree + RNG digest unchanged, no objective call) and idempotence; Report.tla defines the required content as a function of the projected tree and TLC compares (header, per-level numbers, one line per displayed deme with its evaluation count, *** exactly on demes holding the global best).",
-           TRACE_TECH + "Report.tla clauses C20_*", "4/C20"),
+ "C20": _t("At every loop-head boundary of ~40% of the corpus the recorder calls every reporting/query accessor twice, parses summary()/tree() and logs parsed fields, purity (tree + RNG digest unchanged, no objective call) and idempotence; Report.tla defines the required content as a function of the projected tree and TLC compares (header, per-level numbers, one line per displayed deme with its evaluation count, *** exactly on demes holding the global best). 'Looking does not change the tree': seeded runs read densely (all accessors at every boundary) and sparsely (every 2nd / 3rd / 4th boundary, the wrappers not touching the tree in between) must give equal answers at common boundaries (PairTrace.tla, kind look).",
+           TRACE_TECH + "Report.tla clauses C20_*; PairTrace.tla on dense vs sparse observation runs", "4/C20"),
 })
 
 NOT_YET = "check not built yet in this round (see DESIGN.md section 4); no claim is made"
